@@ -24,7 +24,7 @@ def builds():
         dict(name="fp_asan", src="fp_enum.cpp", flags=F, libs=()),
         dict(name="meta_asan", src="meta.cpp", flags=F),
         dict(name="sched_tbb_asan", src="sched_tbb.cpp", flags=F, shim_first=[V + "/shim/vtbb"], libs=("-lboost_timer", "-lpthread")),
-        dict(name="sched_mpi_asan", src="sched_mpi.cpp", flags=F, shim_first=[V + "/shim/vmpi", V + "/shim/vtbb"], libs=("-lboost_timer", "-lboost_serialization", "-lpthread")),
+        dict(name="sched_mpi_asan", src="sched_mpi.cpp", flags=F + ["-DVMPI_THREADS"], shim_first=[V + "/shim/vmpi", V + "/shim/vtbb"], libs=("-lboost_timer", "-lboost_serialization", "-lpthread")),
     ]
     return vlib.build_many(specs)
 
